@@ -479,6 +479,7 @@ def c20(run):
     run.min_instances('R-OUT-BOUND', 10)
     run.assumptions = ASSUME_COMMON + ["window / total / truncation-flag exactness are NOT decided; of the filter semantics only 'a token is compared over its own length' is"]
     from rules import r_misc12
+    r_misc12.run_unsigned_sub(run, P)
     r_misc12.run_literal_length(run, P)   # the listing's fixed pieces (";obs", ";osc", ...) are copied with their own length
     return run.finish(
         "Two clauses of C20 are decided: the listing is never written behind the window the caller supplied. Every store through the output cursor "
@@ -560,6 +561,8 @@ def c02(run):
     r_nullbelief.run(run, P)
     from rules import r_elemshift
     r_elemshift.run(run, P)
+    from rules import r_misc12
+    r_misc12.run_unsigned_sub(run, P)
     run.min_instances('R-NULL-BELIEF', 100)
     from rules import r_uaf
     r_uaf.run(run, P)                    # nothing is used after it was handed to a destructor or handed over with its release callback
